@@ -168,7 +168,9 @@ class BmLib:
     self.lib.verif_lfsr_length.restype = ctypes.c_int
 
   def LfsrLength(self, ba, n):
-    if n < 0 or n >= 2**31:
+    # pybind11's caster for a C++ `int` accepts INT_MIN..INT_MAX (negative n reaches the C++
+    # code, which answers -1) and raises TypeError outside.
+    if n < -2**31 or n >= 2**31:
       raise TypeError('out of range')
     ba = bytes(ba)
     return self.lib.verif_lfsr_length(ba, len(ba), n)
